@@ -1,6 +1,6 @@
 (** C07 — a rejected event has no effect.  Property theorems only. *)
 From TT Require Import Tunnel.ReceiverAbs Tunnel.ReceiverInv Tunnel.ReceiverAbsProofs Tunnel.ReceiverMisc.
-From TT Require Import Judge.RecvOk Judge.RecvOkProofs.
+From TT Require Import Judge.Recv Judge.RecvOk Judge.RecvOkProofs Judge.RecvOkOfCorr Judge.C07.
 From stdpp Require Import gmap.
 Local Open Scope N_scope.
 
@@ -28,6 +28,16 @@ Proof. exact arun_filter. Qed.
 Theorem C07_judge_ok_on_model : forall steps h,
   ok_c07 (snap_of (h_st h)) (map iobs_of (hist_run h steps)) = true.
 Proof. exact ok_c07_model. Qed.
+
+(** ... and so do the observations of ANY run the correspondence check accepts: a [PropFail]
+    without a [Mismatch] is impossible (no scope hypothesis is needed here). *)
+Theorem C07_judge_ok_whenever_corr : forall steps impl,
+  corr_history steps impl = true -> ok_c07 snap_empty impl = true.
+Proof. exact ok_c07_of_corr. Qed.
+
+Theorem C07_judge_agrees_whenever_corr : forall steps impl,
+  corr_history steps impl = true -> judge_c07 steps impl = Agree.
+Proof. exact judge_c07_agree_of_corr. Qed.
 
 Example C07_example :
   crun rs_default (mk_w 0 []) [ESpanEntered 3; ENewSpan 1 None 9 []; ESpanDropped 1]
